@@ -218,6 +218,78 @@ func scenario(lay layout, prog [][]call, bound, raceBound int) schk.Scenario {
 	}
 }
 
+// unhashableScenario: a Map[any,int] is handed a key that cannot be hashed (a slice inside the
+// interface): the call panics like a builtin map access would and the caller recovers. Whatever that call
+// did, the map must be as usable as before for this thread and for another one, and hold what it held.
+func unhashableScenario(state int, op string) schk.Scenario {
+	type urec struct {
+		done [2]bool
+		got  [2]int
+	}
+	name := fmt.Sprintf("Map[any,int]/%s|T0 %s(unhashable key, recovered) Store(y) || T1 Load(x) Store(z)", []string{"fresh", "after Store(x)", "after Store(x) Range"}[state], op)
+	return schk.Scenario{
+		Name: name, Bound: -1, RaceBound: -2, ExpectDeadlock: true,
+		Body: func(s *vrt.Sched) any {
+			r := &urec{}
+			m := new(sync2.Map[any, int])
+			if state >= 1 {
+				m.Store("x", 1)
+			}
+			if state >= 2 {
+				m.Range(func(any, int) bool { return true })
+			}
+			bad := any([]int{1})
+			s.Spawn("T0", func() {
+				func() {
+					defer func() { recover() }()
+					switch op {
+					case "Load":
+						m.Load(bad)
+					case "Store":
+						m.Store(bad, 9)
+					case "LoadOrStore":
+						m.LoadOrStore(bad, 9)
+					case "LoadAndDelete":
+						m.LoadAndDelete(bad)
+					default:
+						m.Delete(bad)
+					}
+				}()
+				m.Store("y", 2)
+				r.done[0] = true
+			})
+			s.Spawn("T1", func() {
+				r.got[0], _ = m.Load("x")
+				m.Store("z", 3)
+				r.got[1], _ = m.Load("z")
+				r.done[1] = true
+			})
+			return [2]any{r, m}
+		},
+		Check: func(x *vrt.Exec, obs any) (*schk.Fail, string) {
+			pair := obs.([2]any)
+			r, m := pair[0].(*urec), pair[1].(*sync2.Map[any, int])
+			if x.Panic != "" {
+				return nil, "panic"
+			}
+			if x.Deadlock || !r.done[0] || !r.done[1] {
+				return schk.Failf("blocked-after-recovered-panic", "after a call with an unhashable key panicked (and was recovered) ordinary calls on the map never return: %v", x.Blocked), ""
+			}
+			wantX := 0
+			if state >= 1 {
+				wantX = 1
+			}
+			y, _ := m.Load("y")
+			n := 0
+			m.Range(func(any, int) bool { n++; return true })
+			if r.got != [2]int{wantX, 3} || y != 2 || n != 2+wantX {
+				return schk.Failf("final-state", "after a recovered panic on an unhashable key: Load(x),Load(z) = %v, Load(y) = %d, Range visits %d keys", r.got, y, n), ""
+			}
+			return nil, "ok"
+		},
+	}
+}
+
 func main() {
 	r := ev.Start("C04")
 	var scs []schk.Scenario
@@ -256,6 +328,11 @@ func main() {
 			for _, b := range alphabet {
 				scs = append(scs, scenario(li, [][]call{{a}, {b}}, ev.Pick(r, 3, -1), -2))
 			}
+		}
+	}
+	for state := 0; state < 3; state++ {
+		for _, op := range []string{"Load", "Store", "LoadOrStore", "LoadAndDelete", "Delete"} {
+			scs = append(scs, unhashableScenario(state, op))
 		}
 	}
 	// 3 threads x 1 call: every multiset of three calls on key a plus Range and one call on key b
